@@ -550,3 +550,162 @@ Fixpoint srun (s : sess) (ls : list slabel) : option sess :=
 (* Session.executeQuery / executeBatch / Query.Iter: "fail fast" test of isClosed *)
 Inductive qres := QErrSessionClosed | QExecuted.
 Definition query (s : sess) : qres := if s_closed s then QErrSessionClosed else QExecuted.
+
+(* ======================================================================================== *)
+(* 5. policyConnPool (connectionpool.go): the session's table of host pools.  Host pools are named
+      by the order of their creation; what happens inside one is section 1. *)
+
+Record ppool := mkPP {
+  pp_closed : bool;               (* policyConnPool.closed (set by Close) *)
+  pp_map : list (nat * nat);      (* hostConnPools: host -> pool *)
+  pp_detached : list nat;         (* pools taken out of the table by removeHost / SetHosts whose `go pool.Close()` has not run yet *)
+  pp_closedpools : list nat;      (* ghost: pools on which hostConnPool.Close has been called *)
+  pp_next : nat                   (* ghost: pools ever created *)
+}.
+
+Definition ppool_init : ppool := mkPP false [] [] [] 0.
+
+Inductive pplabel :=
+| PPAdd (h : nat)        (* addHost (also each host SetHosts creates a pool for): Lock; closed ? return; missing ? create; Unlock; fill *)
+| PPRemove (h : nat)     (* removeHost (also each host SetHosts drops): Lock; delete; Unlock; go pool.Close() *)
+| PPDetClose             (* ... that pool.Close() runs *)
+| PPClose.               (* Close: Lock; closed = true; for every pool: delete, pool.Close(); Unlock *)
+
+Definition ppstep (s : ppool) (l : pplabel) : option ppool :=
+  match l with
+  | PPAdd h =>
+      if pp_closed s then Some s
+      else match alookup h (pp_map s) with
+           | Some _ => Some s
+           | None => Some (mkPP (pp_closed s) (pp_map s ++ [(h, pp_next s)]) (pp_detached s) (pp_closedpools s) (S (pp_next s)))
+           end
+  | PPRemove h =>
+      match alookup h (pp_map s) with
+      | Some p => Some (mkPP (pp_closed s) (aremove h (pp_map s)) (pp_detached s ++ [p]) (pp_closedpools s) (pp_next s))
+      | None => Some s
+      end
+  | PPDetClose =>
+      match pp_detached s with
+      | p :: r => Some (mkPP (pp_closed s) (pp_map s) r (pp_closedpools s ++ [p]) (pp_next s))
+      | [] => None
+      end
+  | PPClose => Some (mkPP true [] (pp_detached s) (pp_closedpools s ++ map snd (pp_map s)) (pp_next s))
+  end.
+
+Fixpoint pprun (s : ppool) (ls : list pplabel) : option ppool :=
+  match ls with
+  | [] => Some s
+  | l :: r => match ppstep s l with Some s' => pprun s' r | None => None end
+  end.
+
+(* ======================================================================================== *)
+(* 6. controlConn (control.go): reconnect (called by the heartbeat and by HandleError of the lost
+      control connection) against close and the cancellation of the session context.  The heartbeat
+      goroutine's own loop and the quit handshake of close are not modelled. *)
+
+Inductive krph :=
+| KR0                    (* reconnect() entered *)
+| KR1                    (* state was not controlConnClosing *)
+| KRDial                 (* reconnecting flag taken, old connection closed, session.connect running *)
+| KRHave (c : nat)       (* connected: inside setupConn (system.local, REGISTER) *)
+| KRRefresh.             (* connection stored; inside session.refreshRing *)
+
+Record kctl := mkK {
+  k_closing : bool;              (* state == controlConnClosing *)
+  k_reconnecting : bool;         (* the reconnecting flag *)
+  k_stored : option nat;         (* c.conn *)
+  k_open : list nat;             (* ghost: control connections that are open *)
+  k_next : nat;                  (* ghost: control connections ever made *)
+  k_cancelled : bool;            (* the session context is cancelled *)
+  k_recs : list (nat * krph);    (* goroutines inside reconnect *)
+  k_closeconn : bool;            (* close() has closed the connection it found *)
+  k_late : bool                  (* ghost: setupConn stored a connection after close() had closed the one it found *)
+}.
+
+Definition kctl_init : kctl := mkK false false (Some 0%nat) [0%nat] 1 false [] false false.
+
+Inductive klabel :=
+| KRecStart (t : nat)
+| KRecCheck (t : nat)      (* atomic.LoadInt32(&c.state) == controlConnClosing ? return *)
+| KRecCAS (t : nat)        (* CAS reconnecting 0 -> 1 fails ? return : attemptReconnect closes the old connection *)
+| KDialOk (t : nat)        (* session.connect(c.session.ctx, ...) succeeded (impossible once the context is cancelled) *)
+| KDialFail (t : nat)      (* no host could be dialled: reconnecting = 0; return *)
+| KSetupOk (t : nat)       (* setupConn: c.conn.Store *)
+| KSetupFail (t : nat)     (* setupConn failed: conn.Close(); (no other host) reconnecting = 0; return *)
+| KRefreshDone (t : nat)   (* refreshRing returned: reconnecting = 0; return *)
+| KCloseState              (* close(): state = controlConnClosing (and the heartbeat goroutine is told to quit) *)
+| KCloseConn               (* close(): c.getConn().conn.Close() *)
+| KCancel.                 (* Session.Close: s.cancel() *)
+
+Definition kstep (s : kctl) (l : klabel) : option kctl :=
+  match l with
+  | KRecStart t =>
+      if memb t (akeys (k_recs s)) then None
+      else Some (mkK (k_closing s) (k_reconnecting s) (k_stored s) (k_open s) (k_next s) (k_cancelled s) (k_recs s ++ [(t, KR0)]) (k_closeconn s) (k_late s))
+  | KRecCheck t =>
+      match alookup t (k_recs s) with
+      | Some KR0 =>
+          if k_closing s
+          then Some (mkK (k_closing s) (k_reconnecting s) (k_stored s) (k_open s) (k_next s) (k_cancelled s) (aremove t (k_recs s)) (k_closeconn s) (k_late s))
+          else Some (mkK (k_closing s) (k_reconnecting s) (k_stored s) (k_open s) (k_next s) (k_cancelled s) (aset t KR1 (k_recs s)) (k_closeconn s) (k_late s))
+      | _ => None
+      end
+  | KRecCAS t =>
+      match alookup t (k_recs s) with
+      | Some KR1 =>
+          if k_reconnecting s
+          then Some (mkK (k_closing s) (k_reconnecting s) (k_stored s) (k_open s) (k_next s) (k_cancelled s) (aremove t (k_recs s)) (k_closeconn s) (k_late s))
+          else Some (mkK (k_closing s) true (k_stored s)
+                       (match k_stored s with Some c => remn c (k_open s) | None => k_open s end)
+                       (k_next s) (k_cancelled s) (aset t KRDial (k_recs s)) (k_closeconn s) (k_late s))
+      | _ => None
+      end
+  | KDialOk t =>
+      match alookup t (k_recs s) with
+      | Some KRDial =>
+          if k_cancelled s then None
+          else Some (mkK (k_closing s) (k_reconnecting s) (k_stored s) (k_open s ++ [k_next s]) (S (k_next s)) (k_cancelled s)
+                       (aset t (KRHave (k_next s)) (k_recs s)) (k_closeconn s) (k_late s))
+      | _ => None
+      end
+  | KDialFail t =>
+      match alookup t (k_recs s) with
+      | Some KRDial => Some (mkK (k_closing s) false (k_stored s) (k_open s) (k_next s) (k_cancelled s) (aremove t (k_recs s)) (k_closeconn s) (k_late s))
+      | _ => None
+      end
+  | KSetupOk t =>
+      match alookup t (k_recs s) with
+      | Some (KRHave c) => Some (mkK (k_closing s) (k_reconnecting s) (Some c) (k_open s) (k_next s) (k_cancelled s)
+                                   (aset t KRRefresh (k_recs s)) (k_closeconn s) (k_late s || k_closeconn s))
+      | _ => None
+      end
+  | KSetupFail t =>
+      match alookup t (k_recs s) with
+      | Some (KRHave c) => Some (mkK (k_closing s) false (k_stored s) (remn c (k_open s)) (k_next s) (k_cancelled s)
+                                   (aremove t (k_recs s)) (k_closeconn s) (k_late s))
+      | _ => None
+      end
+  | KRefreshDone t =>
+      match alookup t (k_recs s) with
+      | Some KRRefresh => Some (mkK (k_closing s) false (k_stored s) (k_open s) (k_next s) (k_cancelled s) (aremove t (k_recs s)) (k_closeconn s) (k_late s))
+      | _ => None
+      end
+  | KCloseState => Some (mkK true (k_reconnecting s) (k_stored s) (k_open s) (k_next s) (k_cancelled s) (k_recs s) (k_closeconn s) (k_late s))
+  | KCloseConn =>
+      Some (mkK (k_closing s) (k_reconnecting s) (k_stored s)
+              (match k_stored s with Some c => remn c (k_open s) | None => k_open s end)
+              (k_next s) (k_cancelled s) (k_recs s) true (k_late s))
+  | KCancel => Some (mkK (k_closing s) (k_reconnecting s) (k_stored s) (k_open s) (k_next s) true (k_recs s) (k_closeconn s) (k_late s))
+  end.
+
+Fixpoint krun (s : kctl) (ls : list klabel) : option kctl :=
+  match ls with
+  | [] => Some s
+  | l :: r => match kstep s l with Some s' => krun s' r | None => None end
+  end.
+
+Definition k_rec_label (l : klabel) : bool :=
+  match l with KRecCheck _ | KRecCAS _ | KDialOk _ | KDialFail _ | KSetupOk _ | KSetupFail _ | KRefreshDone _ => true | _ => false end.
+
+Definition k_in_hand (s : kctl) : list nat :=
+  flat_map (fun e => match snd e with KRHave c => [c] | _ => [] end) (k_recs s).
